@@ -34,7 +34,8 @@ RULE = ("case = (documented name, spelling in {as documented, all '_', all '-', 
         " Round-6 classes: data homes with several trailing components that do not exist yet (~/.cache/tw/cache-v1, data/sets/tw-cache)."
         " Round-7 classes: a 'no_home' kind - bundled names (and an unknown name) requested while HOME / TRAFFIC_WEAVER_DATA lie beneath a regular file."
         " Round-8 classes: a data home that is, or lies behind, a symbolic link; by-name loads that never reach the checksum-substituting wrapper are inconclusive (HookNotReached), not judged."
-        " Round-9 classes: every second loader process has INFO (every fourth DEBUG) logging switched on by the application.")
+        " Round-9 classes: every second loader process has INFO (every fourth DEBUG) logging switched on by the application."
+        " Round-10 classes: data-home values with components that look like variable references ($STAGE, ${USER}, %TEMP%) while such variables are defined.")
 REQUIRED_MONITORS = ["c18:symlink_home", "c18:bundled", "c18:remote", "c18:pinned_checksum_enforced", "c18:all_in_one_home",
                      "c18:undocumented", "c18:default_home", "c18:substitution_wrapper", "c18:switch_home", "c18:tilde_home", "c18:relative_home", "c18:description_accessors", "c18:threads", "c18:no_home"]
 ASSUMPTIONS = ["the served payloads are synthetic; what is observed is the loader's behaviour per name, not the remote files"]
